@@ -148,10 +148,24 @@ def report_panic(v, ex, o, msg, witness=None):
     return True
 
 
-def fail_structural(v, o, msg, witness=None):
+def mentions_unknowns(*exprs):
+    """does one of the z3 expressions mention a value that came from an unmodelled callee / float / havoc?"""
+    from z3 import z3util
+    for e in exprs:
+        try:
+            vs = z3util.get_vars(e)
+        except Exception:
+            continue
+        if any(x.decl().name().startswith(UNKNOWN_PREFIXES) for x in vs):
+            return True
+    return False
+
+
+def fail_structural(v, o, msg, witness=None, exprs=()):
     """post-condition failure of an obligation whose unit is meant to be modelled completely: if the
-    failing path hinges on an unmodelled callee's result the verdict is 'undecided', not 'fail'"""
-    if depends_on_unknowns(o):
+    failing path (or one of the compared values, `exprs`) hinges on an unmodelled callee's result the
+    verdict is 'undecided', not 'fail'"""
+    if depends_on_unknowns(o) or mentions_unknowns(*exprs):
         v.undecided("a failing path depends on the result of an unmodelled callee: %s" % msg[:160])
         return False
     v.fail(msg, witness)
